@@ -107,6 +107,15 @@ def _aliases(funcnode):
         if len(vals) == 1 and vals[0] is not None and is_path(vals[0]) \
                 and not isinstance(vals[0], ast.Name):
             out[name] = vals[0]
+        elif len(vals) > 1 and all(v is not None and is_path(v) and not isinstance(v, ast.Name) for v in vals) \
+                and len(set(canon(v) for v in vals)) == 1:
+            # bound more than once, every time to the same attribute path (a helper inlined at two call sites brings its
+            # `limit = self.limit` twice): still an alias, as long as the function never stores into that path
+            path = canon(vals[0])
+            stored = any(isinstance(x, (ast.Attribute, ast.Subscript)) and isinstance(x.ctx, (ast.Store, ast.Del)) and
+                         (canon(x) == path or path.startswith(canon(x) + ".")) for x in ast.walk(funcnode))
+            if not stored:
+                out[name] = vals[0]
     # resolve chains (x = self.a ; y = x.child)
     for _ in range(3):
         for name, v in list(out.items()):
